@@ -218,15 +218,18 @@ PROPS["C14"] = dict(
                "canonical input re-encodes to itself; accepted framed input is strictly tiled; no decoder can index out of range) proved in Coq; the models, the "
                "independent strict walker and the canonical parsers are evaluated in Coq on what the Go marshal/unmarshal did for random well-formed fields incl. empty and "
                "maximal vectors and every extension, all short truncations, sampled (thorough: all) truncations and single-byte mutations, re-framed insertions/deletions, "
-               "arbitrary bytes, hand-made non-canonical hellos, and every handshake message captured from real handshakes of both stacks.",
+               "arbitrary bytes, hand-made non-canonical hellos (several and duplicated supported_groups / signature_algorithms extensions in both stacks), and every handshake message captured from real handshakes of both stacks.",
     level_note="Trusted: Coq kernel + vm_compute; hand-written models tied by correspondence (every case compares accept/reject, all decoded fields, and the re-marshalled bytes); "
                "the raw cache is bypassed (cleared by the hook); Go slicing up to cap() is modelled as slicing up to len() (stricter); 24-bit vectors are exercised up to ~70 kB, not 16 MB; "
-               "strictness holds under the framing readHandshake guarantees, most decoders do not check the header themselves (K7, K8).",
+               "strictness holds under the framing readHandshake guarantees, most decoders do not check the header themselves (K7, K8). "
+               "The dtlcp ClientHello decoder used to keep only the last supported group / signature algorithm (K6, fixed in fe30aba): the model, the round-trip theorem and "
+               "the canonical form carry no exception for it any more; failure kind 9 compares the decoded lists with the values on the wire (last extension of each type, "
+               "read by the independent extension walker) and would report a regression.",
     code_names={1: "roundtrip-lost-or-changed-a-field", 2: "canonical-input-reencodes-differently",
                 3: "framed-input-accepted-with-trailing-bytes-or-inner-length-disagreement", 4: "panic",
                 5: "accepted-although-header-length-disagrees-with-size", 6: "accepted-although-fragment-fields-not-whole-message",
                 7: "emitted-handshake-message-rejected", 8: "never-emitted-form-without-ignored-parts-reencodes-differently",
-                9: "clientHello-supported-groups-or-signature-algorithms-reduced-to-last-value"},
+                9: "dtlcp-clientHello-decoded-groups-or-signature-algorithms-differ-from-wire-values"},
     assumptions=["unmarshal is called on one whole handshake message as readHandshake frames it (length field = size - header; dtlcp: fragment_offset 0, fragment_length = length); "
                  "what the decoders do outside that framing is modelled and reported (K7, K8), not assumed away",
                  "messages are shorter than 4 GB (the Go code compares uint32 truncations of len(data))"],
